@@ -11,8 +11,11 @@
   not involve the experiments (missing graph, budget exhausted, an error of line 2 / line 10 …) answer `false`: there
   the run is the same with and without declared experiments.
 
+  `usesLine6x` (end of the file) is the exact version: line 4 read lazily, as `collectTerms` / the Python loop does.
+
   `clearSurr q` is `q` with no declared experiment.  Lemmas/TrsoUse proves
-  `usesLine6 sep fuel q = false → trsoF sep fuel q = trsoF sep fuel (clearSurr q)`.
+  `usesLine6 sep fuel q = false → trsoF sep fuel q = trsoF sep fuel (clearSurr q)`, the same for `usesLine6x`, and
+  `usesLine6x sep fuel q = true → usesLine6 sep fuel q = true`.
 
   Core Lean only.
 -/
